@@ -90,7 +90,16 @@ def run_impose(rng, obs):
     elif which in ('normalize', 'impose_sum'):
         ww = gen_weights(rng, n)
         t = rng.choice([1.0, 2.5, 10.0])
-        y = mm.normalize(list(ww), t) if which == 'normalize' else mm.impose_sum(t, list(ww))
+        lp = rng.choice([None, None, 'default', 'l1', 'l2', 'l3']) if which == 'normalize' else None
+        if lp:       # mass given as 'lN' (default 'l2'): the L-N norm of the result is 1
+            y = mm.normalize(list(ww)) if lp == 'default' else mm.normalize(list(ww), lp)
+            pn = 2 if lp == 'default' else int(lp[1:])
+            t = R.lnorm(ww, pn)                      # (for the 'missed' bookkeeping below)
+            obs.desc['w'] = ww; obs.desc['mass'] = lp
+            obs.check(R.close(R.lnorm(y, pn), 1.0), 'target:requested total reached', f=which, mass=lp, w=ww, observed=R.lnorm(y, pn), y=list(y))
+            t = R.wsum(y)
+        else:
+            y = mm.normalize(list(ww), t) if which == 'normalize' else mm.impose_sum(t, list(ww))
         obs.desc['w'] = ww
         obs.check(R.close(R.wsum(y), t), 'target:requested total reached', f=which, t=t, w=ww, observed=R.wsum(y))
         k = R.wsum(y) / R.wsum(ww)
@@ -109,14 +118,36 @@ def run_impose(rng, obs):
         missed = abs(R.wsum(ww) - t) > 0.01 * t
         w = ww
     else:
-        order = rng.choice([2, 4])
-        t = rng.choice([1.0, 5.0, 0.3])
-        y = mm.impose_moment(t, list(x), w, order=order)
-        obs.desc['order'] = order
-        got = R.wmoment(y, w, order)
-        obs.check(R.close(got, t, 1e-8), 'target:requested central moment reached', f=which, order=order, t=t, x=x, w=w, observed=got)
-        obs.check(R.close(R.wmean(y, w), R.wmean(x, w), 1e-9, 1e-9 * (1 + abs(R.wmean(x, w)))), 'keeps:impose_moment keeps the mean', f=which, x=x, w=w)
-        missed = abs(R.wmoment(x, w, order) - t) > 0.01 * t
+        order = rng.choice([2, 2, 4, 3, 5, 0, 1])
+        t = rng.choice([1.0, 5.0, 0.3]) * (rng.choice([1.0, -1.0]) if order % 2 or rng.random() < 0.15 else 1.0)
+        skew = rng.choice([None, None, False, True])
+        kw = {} if skew is None else {'skew': skew}
+        obs.desc['order'] = order; obs.desc['skew'] = skew
+        if order in (0, 1):
+            # documented degenerate orders: the 0th central moment is 1 and the 1st is 0 - asking for exactly that leaves the points alone, anything else has no answer
+            t = rng.choice([1.0, 0.0, 2.0])
+            y = mm.impose_moment(t, list(x), w, order=order, **kw)
+            possible = (t == 1.0) if order == 0 else (t == 0.0)
+            obs.check(([float(v) for v in y] == [float(v) for v in x]) if possible else all(v != v for v in y),
+                      'target:requested central moment reached', f=which, order=order, t=t, x=x, w=w, observed=[float(v) for v in y][:4], degenerate_order=True)
+            missed = False
+        elif order % 2 == 0 and t < 0:
+            y = mm.impose_moment(t, list(x), w, order=order, **kw)
+            obs.check(all(v != v for v in y), 'target:requested central moment reached', f=which, order=order, t=t, x=x, w=w, observed=[float(v) for v in y][:4],
+                      impossible_target=True)
+            missed = False
+        else:
+            # (odd orders: the source must have a decidedly non-zero odd moment to be rescaled; skew squares the points first)
+            src = [v * v for v in x] if (skew or (skew is None and order % 2)) else list(x)
+            sm = R.wmoment(src, w, order)
+            scale_ = max(abs(v - R.wmean(src, w)) for v in src) ** order
+            if abs(sm) <= 1e-6 * scale_:
+                obs.skip('source moment vanishes'); return
+            y = mm.impose_moment(t, list(x), w, order=order, **kw)
+            got = R.wmoment(y, w, order)
+            obs.check(R.close(got, t, 1e-7), 'target:requested central moment reached', f=which, order=order, t=t, x=x, w=w, observed=got, skew=skew)
+            obs.check(R.close(R.wmean(y, w), R.wmean(x, w), 1e-9, 1e-8 * (1 + abs(R.wmean(x, w)))), 'keeps:impose_moment keeps the mean', f=which, x=x, w=w, order=order, skew=skew)
+            missed = abs(R.wmoment(x, w, order) - t) > 0.01 * abs(t)
     obs.desc['t'] = t
     obs.nontrivial = missed and (w is not None and weighted_nontrivial(w))
     obs.notes = {'missed_before': missed}
